@@ -308,13 +308,9 @@ MUTANTS = [
                 outwidths[i] -= 1
                 if maxwidths[i] == minwidths[i]:
                     maxwidths[i] = -1"""),
-    ('C17', 'natbib-aliases-back-on-class', 'plasTeX/Packages/natbib.py',
-     """        aliases = doc.userdata.getPath('bibliography/citealiases', {})
-        aliases[self.attributes['key']] = self.attributes['text']""",
-     """        aliases = defcitealias.__dict__.get('_shared') or {}
-        type.__setattr__(defcitealias, '_shared', aliases)
-        doc.userdata.setPath('bibliography/citealiases', aliases)
-        aliases[self.attributes['key']] = self.attributes['text']"""),
+    ('C17', 'natbib-aliases-back-on-class', 'plasTeX/Packages/natbib.py',          # (the shared table itself is in EXTRA below)
+     """        aliases[self.attributes['key']] = self.attributes['text']""",
+     """        aliases[self.attributes['key']] = _ALIASES[self.attributes['key']] = self.attributes['text']"""),
     ('C17', 'natbib-sectionbib-back-on-class', 'plasTeX/Packages/natbib.py',
      """            bibunit['level'] = Base.section.level""",
      """            Base.bibliography.level = bibunit['level'] = Base.section.level"""),
@@ -324,4 +320,8 @@ MUTANTS = [
 EXTRA = {
     'list-depth-back-on-class': ('plasTeX/Base/LaTeX/Lists.py', "\n_UD = {}\n"),
     'packageResources-class-level': ('plasTeX/__init__.py', "\n_SHARED_RESOURCES = []\n"),
+    'natbib-aliases-back-on-class': ('plasTeX/Packages/natbib.py',
+                                     "\n_ALIASES = {}\n"
+                                     "citetalias.citation = lambda self: citet.citation(self, text=_ALIASES.get(self.attributes['bibkeys'][0], ''))\n"
+                                     "citepalias.citation = lambda self: citep.citation(self, text=_ALIASES.get(self.attributes['bibkeys'][0], ''))\n"),
 }
